@@ -351,7 +351,86 @@ def build(tier, seed):
         # list.extend raise TypeError; the property's reading (concatenate the JVPs) is kept as the finding instance
         add(f"C39/jvp:batch_jvp/reduction-{reduction}", (JVP, "batch_jvp"), nmj, run_bjvp, exp_bjvp, finding="F25" if reduction == "extend" else None)
 
-    plan.unverified = ["classical_jacobian (autodiff of the QNode's classical preprocessing)", "interfaces other than numpy (autograd / torch / jax "
+    plan.unverified = ["classical_jacobian beyond the bounded autograd stand-in (torch / jax / tf branches, expand_fn, trainable_only=False)", "interfaces other than numpy (autograd / torch / jax "
                        "branches of _convert, tensordot fallbacks)", "gradient_fn itself (the Jacobian is an input here)",
                        "measurement shapes beyond the enumerated classes"]
+
+    # ---- concrete integer cotangents (one-hot vectors, as autodiff frameworks pass them) against a symbolic Jacobian --------------------
+    # The Jacobian must not be converted to the cotangent's integer dtype before the contraction (independent seed C39_1).
+    def int_cotangents(d):
+        n = int(np.prod(d)) if d else 1
+        pats = [[1 if i == k else 0 for i in range(n)] for k in range(n)] + [[2 - 3 * i for i in range(n)]]
+        return [np.array(pt, dtype=np.int64).reshape(d) for pt in pats]
+    for d in dims:
+        for ci, dyv in enumerate(int_cotangents(d)):
+            for P in (1, 2):
+                jn = [n for k in range(P) for n in names_of(f"j{k}", d)]
+                add(f"C39/vjp:compute_vjp_single/int-cotangent{ci}/{P}-params/meas{list(d)}", (VJP, "compute_vjp_single"), jn,
+                    lambda S, d=d, P=P, dyv=dyv: compute_vjp_single(dyv, tuple(arr(S, f"j{k}", d) for k in range(P)) if P > 1 else arr(S, "j0", d)),
+                    lambda S, d=d, P=P, dyv=dyv: asarray([dot([int(v) for v in dyv.reshape(-1)], entries(S, f"j{k}", d)) for k in range(P)], (P,)))
+    for ml in meas_lists[:2]:
+        tag = "+".join(str(list(d)) for d in ml).replace(" ", "")
+        dys = tuple(int_cotangents(d)[-1] for d in ml)
+        for P in (1, 2):
+            jn = [n for m, d in enumerate(ml) for k in range(P) for n in names_of(f"j{m}_p{k}", d)]
+            add(f"C39/vjp:compute_vjp_multi/int-cotangent/{P}-params/meas{tag}", (VJP, "compute_vjp_multi"), jn,
+                lambda S, ml=ml, P=P, dys=dys: compute_vjp_multi(dys, tuple(arr(S, f"j{m}_p0", d) for m, d in enumerate(ml)) if P == 1 else
+                                                                 tuple(tuple(arr(S, f"j{m}_p{k}", d) for k in range(P)) for m, d in enumerate(ml))),
+                lambda S, ml=ml, P=P, dys=dys: asarray([sum((dot([int(v) for v in dys[m].reshape(-1)], entries(S, f"j{m}_p{k}", d))
+                                                             for m, d in enumerate(ml)), 0) for k in range(P)], (P,)))
+    plan.size_bounds.append("integer cotangents: the one-hot vectors and one mixed-sign pattern per measurement shape")
+
+    # ---- classical_jacobian: bounded native stand-in (autograd interface; the function traces a QNode, out of reach of both engines) ----
+    def classical_jacobian_standin():
+        import random as _random
+        import pennylane as qp
+        from pennylane import numpy as pnp
+        import autograd
+        rng = _random.Random(seed * 7919 + 39)
+        dev = qp.device("default.qubit", wires=2)
+
+        def pre(x, y, z):                      # the classical pre-processing, written once here and used inside the QNode
+            return [pnp.sin(x) * y, x * y ** 2, z[0] * x, 2 * z[1] + y]
+
+        @qp.qnode(dev)
+        def circuit(x, y, z):
+            g = pre(x, y, z)
+            qp.RX(g[0], wires=0)
+            qp.RY(g[1], wires=1)
+            qp.CNOT(wires=[0, 1])
+            qp.RZ(g[2], wires=1)
+            qp.RX(g[3], wires=0)
+            return qp.expval(qp.Z(0) @ qp.Z(1))
+
+        def expected(a, args):
+            return autograd.jacobian(lambda *aa: pnp.stack(pre(*aa)), a)(*args)
+        tried = 0
+        for _ in range(3):
+            args = (pnp.array(rng.uniform(-2, 2), requires_grad=True), pnp.array(rng.uniform(-2, 2), requires_grad=True),
+                    pnp.array([rng.uniform(-2, 2), rng.uniform(-2, 2)], requires_grad=True))
+            for argnum in (None, 0, 1, 2, [0], [1], [0, 2], [2, 0], [0, 1, 2]):
+                tried += 1
+                try:
+                    got = qp.gradients.classical_jacobian(circuit, argnum=argnum)(*args)
+                except Exception as ex:  # pylint: disable=broad-except
+                    return Outcome(REFUTED, "native-standin", f"classical_jacobian(argnum={argnum}) raised {type(ex).__name__}: {ex}",
+                                   witness=dict(argnum=argnum, args=[np.asarray(a).tolist() for a in args]), replay=dict(confirmed=True))
+                sel = [0, 1, 2] if argnum is None else ([argnum] if isinstance(argnum, int) else list(argnum))
+                want = [np.asarray(expected(a, args), dtype=float) for a in sel]
+                if isinstance(argnum, int):
+                    ok = not isinstance(got, tuple) and np.shape(got) == want[0].shape and np.allclose(np.asarray(got, dtype=float), want[0], atol=1e-9)
+                else:
+                    ok = isinstance(got, tuple) and len(got) == len(sel) and all(
+                        np.shape(g) == w.shape and np.allclose(np.asarray(g, dtype=float), w, atol=1e-9) for g, w in zip(got, want))
+                if not ok:
+                    return Outcome(REFUTED, "native-standin", f"classical_jacobian(argnum={argnum}) is not the Jacobian of the classical "
+                                   f"pre-processing w.r.t. the selected argument(s): got {str(got)[:300]}, expected {str(want)[:300]}",
+                                   witness=dict(argnum=argnum, args=[np.asarray(a).tolist() for a in args]),
+                                   replay=dict(confirmed=True, observed=str(got)[:400], expected=str(want)[:400]))
+        return Outcome(DISCHARGED, f"native-standin(bounded: {tried} calls, autograd interface, 3 seeded points x 9 argnum forms)", "no mismatch")
+    CJ = "pennylane/gradients/classical_jacobian.py"
+    plan.add(Obligation("C39/classical_jacobian:classical_jacobian/argnum-forms-autograd[bounded]", "post", classical_jacobian_standin,
+                        func=(CJ, "classical_jacobian"), bounded=True, timeout=600,
+                        sample="bounded stand-in: Jacobian of the classical pre-processing for argnum None / int / sequences"))
+    plan.fn_under_contract(CJ, "classical_jacobian")
     return plan
